@@ -120,7 +120,7 @@ class Counters(Suite):
 
 
 if __name__ == "__main__":
-    main("C01", [Kemeny(), Counters()],
+    main("C01", [Kemeny(), Counters()], gen_targets=["kemenymerge"],
          level_note="see MANIFEST level_note",
          rule="exhaustive block: datasets of two partial rankings over {0,1,2} x candidates over 3 and 4 elements (quick: sampled) under the "
               "generic scheme (all 12 penalties distinct where allowed); random datasets <= 8 x 6 with candidates over the universe (60%), "
